@@ -172,7 +172,9 @@ class TableRow(Mapping[str, object]):
     def step(self) -> None:
         """Step the forloop forward."""
         self._index += 1
-        if self._col == self.ncols:
+        # Before the first item there is no row to wrap, however few columns
+        # (none at all, even) were asked for.
+        if self._col == self.ncols and self._index > 0:
             self._col = 1
             self._row += 1
         else:
@@ -244,11 +246,12 @@ class TablerowNode(Node):
 
                 buffer.write("</td>")
 
+                if _break:
+                    # No more cells, so no new row either.
+                    break
+
                 if tablerow.col_last and not tablerow.last:
                     buffer.write(f'</tr>\n<tr class="row{tablerow.row + 1}">')
-
-                if _break:
-                    break
 
         buffer.write("</tr>\n")
         return True
@@ -292,11 +295,12 @@ class TablerowNode(Node):
 
                 buffer.write("</td>")
 
+                if _break:
+                    # No more cells, so no new row either.
+                    break
+
                 if tablerow.col_last and not tablerow.last:
                     buffer.write(f'</tr>\n<tr class="row{tablerow.row + 1}">')
-
-                if _break:
-                    break
 
         buffer.write("</tr>\n")
         return True
